@@ -12,7 +12,10 @@ Also extracts the device tables omegas / omegas_inv / domain_size_inverse from n
 Usage: ptx2cpp.py <gl64_t.cuh> <ntt_goldilocks.cuh> <outdir>     (writes gl64_host.hpp and gl64_tables.inc)"""
 import re, sys, os
 KNOWN = {'add.u64','sub.u64','sub.u32','add.cc.u64','sub.cc.u64','add.cc.u32','addc.u32','addc.cc.u32','sub.cc.u32','subc.u32','subc.cc.u32',
-         'mul.lo.u32','mul.hi.u32','mad.lo.cc.u32','madc.lo.cc.u32','madc.hi.cc.u32','madc.hi.u32','mov.b64','selp.u64','setp.eq.u32','setp.ne.u32','setp.ne.s32'}
+         'mul.lo.u32','mul.hi.u32','mad.lo.cc.u32','madc.lo.cc.u32','madc.hi.cc.u32','madc.hi.u32','mov.b64','selp.u64','setp.eq.u32','setp.ne.u32','setp.ne.s32',
+         # plain / other-width variants of the same families (not used by the shipped header; a small edit of it may introduce them)
+         'add.u32','mad.lo.u32','mad.hi.u32','mad.hi.cc.u32','madc.lo.u32','addc.u64','addc.cc.u64','subc.u64','subc.cc.u64','mul.lo.u64','mul.hi.u64',
+         'setp.eq.s32','setp.eq.u64','setp.ne.u64','setp.lt.u32','setp.ge.u32','setp.lt.u64','setp.ge.u64','selp.u32','mov.u32','mov.b32','mov.u64'}
 src = open(sys.argv[1]).read()
 
 def find_asm(s, start):
